@@ -36,9 +36,9 @@ def budget_s(tier):
 
 def levels(tier):
     if tier == "quick":
-        return [(2, 2, 2, "allorient", "perm", "all"), (2, 3, 3, "allorient", "three", "all"), (3, 3, 3, "allorient", "three", "some"), (3, 4, 2, "two", "two", "some"),
+        return [(2, 2, 2, "allorient", "perm", "all"), (2, 3, 3, "allorient", "three", "all"), (2, 4, 2, "two", "three", "some"), (3, 3, 3, "allorient", "three", "some"), (3, 4, 2, "two", "two", "some"),
                 (3, 5, "twin", "two", "three", "some")]
-    return [(2, 2, 2, "allorient", "perm", "all"), (2, 3, 3, "allorient", "three", "all"), (3, 3, 3, "allorient", "three", "all"),
+    return [(2, 2, 2, "allorient", "perm", "all"), (2, 3, 3, "allorient", "three", "all"), (2, 4, 3, "allorient", "three", "some"), (3, 3, 3, "allorient", "three", "all"),
             (3, 4, 3, "two", "three", "some"), (4, 4, 2, "two", "two", "some"), (3, 5, "twin", "allorient", "three", "some"), (4, 5, "twin", "two", "three", "some")]
 
 
